@@ -16,7 +16,7 @@ CLAIMED = {
     "C01": ("exploration",
             "property-based testing (rapid) on a virtual-time rig (real server + real Manager over an in-memory network), exactly-once/intact oracle over token-carrying events; link-fault injection; concurrent use of the manager",
             "Three checks. c01-delivery: transport {polling, websocket, upgrade with emits falling into it}, recovery off/on, MaxBufferSize {64 KiB, 256 KiB, default}, 1..3 clients, 1..24 events of 25 schemas (16 Go argument shapes with Binary leaves, look-alike names, sizes around 32 KiB / 64 KiB) both ways from 1..4 goroutines per side; oracle: per (receiver, event) the multiset of tokens equals what was emitted, arguments tree-equal, no error, no close. c01-lossy-link: a two-way stream with every open TCP connection cut after d more bytes in one direction (reset or drained); oracle: events may be lost only together with a connection whose end is reported. c01-busy-manager: a binary stream while the client keeps using the same Manager (further namespaces, Open again, handlers, Connect/Disconnect of side namespaces); oracle: exactly once, intact, connection stays up. Held on everything generated; sampling, not exhaustive.",
-            "Virtual time: interleavings are those the bubble's scheduler produces plus forced yields at hook sites; real TCP stacks are not in the loop. Open findings KF-C01-1 and KF-C01-2 (net/http repeats a poll whose answer was lost before its first byte), each excluded or tolerated by construction while its probe still fails, and counted.",
+            "Virtual time: interleavings are those the bubble's scheduler produces plus forced yields at hook sites; real TCP stacks are not in the loop. Open finding KF-C01-2 (net/http repeats a poll whose answer was lost before its first byte), tolerated while its probe still fails, and counted.",
             "DESIGN.md §3 C01"),
     "C02": ("exploration",
             "property-based testing (rapid): wire-level check with an independent streaming decoder on a raw Engine.IO endpoint + handler-entry order on the rig",
@@ -55,7 +55,7 @@ CLAIMED = {
     "C08": ("exploration",
             "model-based property testing (rapid) of the session-aware adapter against a reference log; end-to-end recovery against a hand-written client that implements the recovery protocol",
             "Adapter level: rapid histories in virtual time (window 2 s / 10 s, cleaner off / W/4 / W / 3W): joins, leaves, namespace / room(+except) / direct broadcasts (text, binary), disconnects, time advancing across the window, RestoreSession with own/unknown pid and last/older/unknown/empty offset; oracle: recovered => same sid, rooms, missed packets == reference log after the offset filtered by the session's rooms, re-encode to what was emitted; expired/unknown => not recovered. End to end: the real server (window 10 s / 2 min, cleaner 1 s / 2.5 s / 1 min, UseMiddlewares on/off) against a raw peer that tracks offsets and reconnects with {pid, offset}: loss by cut / black hole / forced close / DISCONNECT, broadcasts before the server can notice, staying away around the window, a second recovery; oracle: recovered iff eligible, replay == log, rooms restored, else fresh session with nothing replayed. Open finding KF-C08-1.",
-            "The Go client itself cannot track offsets for handlers whose last parameter is not a string (and breaks for those where it is: KF-C01-1), so the client side of recovery is exercised through C15 (clean fall-back).",
+            "c08-go-client runs the library's own client through outages against the recovery-enabled server (four handler signatures): recovered iff eligible, exactly before + missed + after, each once.",
             "DESIGN.md §3 C08"),
     "C12": ("exploration",
             "property-based testing (rapid) of middleware chains on the virtual-time rig against a reference fold",
